@@ -372,6 +372,9 @@ impl Property for C18 {
     fn tape_len(&self, _t: Tier) -> usize {
         120
     }
+    fn fuzz_runs(&self, _tier: Tier) -> u64 {
+        40_000
+    }
     fn random_cases(&self, tier: Tier) -> u64 {
         tier.pick(40_000, 600_000)
     }
